@@ -292,3 +292,37 @@ Print Assumptions C02_code_block_open_declines_partial.
 (* non-vacuity: the design-time deviation (three backslashes before the line end) is a hard break *)
 Example C02_demo : line_break_kind [97; 92; 92; 92; 10] = 1 /\ line_break_kind [97; 92; 92; 10] = 3.
 Proof. vm_compute. split; reflexivity. Qed.
+
+(* ---------------- the whole default parser and renderer as one model ----------------
+   ConvertModel (model/ParseI.v) = ParseTree (model/BlockParse.v + InlineParse.v: parser.go, the
+   ten block parsers, the link reference definition transformer, the five inline parsers and
+   ProcessDelimiters, transcribed) followed by RenderHTML (model/Html.v).  It is compared with
+   goldmark's tree and with goldmark.Convert's bytes on every run (case kinds ParseTree, Convert).
+   Inside the kernel: it reproduces the prescribed HTML of every example of the specification
+   shipped with the repository (gen/SpecExamples.v is regenerated from _test/spec.json). *)
+Require Import GM.model.ParseI GM.gen.SpecExamples GM.proofs.SpecConformance.
+Theorem C02_model_conforms_to_spec_examples : forall n md html,
+  In (n, (md, html)) spec_examples -> ConvertModel spec_cfg md = Ok html.
+Proof. exact spec_examples_conform. Qed.
+Print Assumptions C02_model_conforms_to_spec_examples.
+Example C02_spec_examples_present : (600 <= length spec_examples)%nat.
+Proof. exact spec_examples_nonempty. Qed.
+
+(* the link destination scanner (parser/link.go parseLinkDestination, model/LinkDest.v) reads
+   the destinations md_of writes, bare and in pointy brackets *)
+Require Import GM.model.LinkDest GM.proofs.LinkDestProofs GM.proofs.LinkDestConcrete.
+Theorem C02_link_destination_bare : forall (d rest : bytes) (stop : N),
+  d <> [] -> forallb dest_char d = true -> (stop = 32%N \/ stop = 41%N) ->
+  parse_link_destination space_table punct_table (d ++ stop :: rest) = Some (d, zlen d).
+Proof. exact (bare_destination space_table punct_table sp32_concrete dest_not_space_concrete). Qed.
+Print Assumptions C02_link_destination_bare.
+Theorem C02_link_destination_angle : forall (d rest : bytes),
+  (forall c, In c d -> c <> 62%N /\ c <> 92%N /\ c <> 10%N) ->
+  parse_link_destination space_table punct_table (60%N :: d ++ 62%N :: rest) = Some (d, (zlen d + 2)%Z).
+Proof. exact (angle_destination space_table punct_table sp32_concrete dest_not_space_concrete). Qed.
+Print Assumptions C02_link_destination_angle.
+Theorem C02_link_destination_unclosed_angle : forall (d : bytes),
+  (forall c, In c d -> c <> 62%N /\ c <> 92%N) ->
+  parse_link_destination space_table punct_table (60%N :: d) = None.
+Proof. exact (angle_unclosed space_table punct_table). Qed.
+Print Assumptions C02_link_destination_unclosed_angle.
